@@ -538,7 +538,40 @@ fn scope_cases() -> Vec<Pol> {
     v
 }
 
-pub fn run(tier: Tier) -> i32 {
+/// re-run one recorded expression case without the explorer
+fn replay(path: &str) -> i32 {
+    let doc: serde_json::Value = match std::fs::read_to_string(path).ok().and_then(|s| serde_json::from_str(&s).ok()) {
+        Some(d) => d,
+        None => {
+            eprintln!("cannot read replay file {path}");
+            return 2;
+        }
+    };
+    let case = &doc["case"];
+    let (Ok(e), Ok(st)) = (serde_json::from_value::<E>(case["e"].clone()), serde_json::from_value::<Style>(case["style"].clone())) else {
+        eprintln!("replay file holds no expression case (kind={}); re-run the check instead", case["kind"]);
+        return 2;
+    };
+    let p = prepare();
+    let mut l = Local::default();
+    let bad = check_expr(&e, &st, &p, &mut l);
+    println!("replaying `{}`", refsem::print::text(&e, &st));
+    for (fp, what) in &bad {
+        println!("  [{fp}] {what}");
+    }
+    if bad.is_empty() {
+        println!("no mismatch on replay");
+        0
+    } else {
+        println!("VIOLATION property=C02 replay={path}");
+        1
+    }
+}
+
+pub fn run(tier: Tier, replay_file: Option<&str>) -> i32 {
+    if let Some(p) = replay_file {
+        return replay(p);
+    }
     let ctx = Ctx::new("C02", tier);
     quiet_panics();
     let exprs = gen(tier);
@@ -559,7 +592,7 @@ pub fn run(tier: Tier) -> i32 {
                 let res = ctx.guard("C02 expression", || json!({"expr": refsem::print::text(e, st)}), || check_expr(e, st, &p, &mut l));
                 if let Some(bad) = res {
                     for (fp, what) in bad {
-                        ctx.violation(fp, what, json!({"kind": "expr", "text": refsem::print::text(e, st), "est": refsem::print::est(e)}));
+                        ctx.violation(fp, what, json!({"kind": "expr", "text": refsem::print::text(e, st), "e": serde_json::to_value(e).unwrap(), "style": serde_json::to_value(st).unwrap()}));
                     }
                 }
             }
